@@ -28,13 +28,17 @@ def _selmany_jets(s):
     return s.SelectMany(lambda e: e.jets())
 
 
-_CALLSITES = {("Select", "lambda e: e.met()"): _sel_met, ("Where", "lambda e: e.met() > 1"): _where_cut,
+def _sel_nest(s):
+    return s.Select(lambda e: e.jets().Select(lambda j: j.pt()))
+
+
+_CALLSITES = {("Select", "lambda e: e.jets().Select(lambda j: j.pt())"): _sel_nest, ("Select", "lambda e: e.met()"): _sel_met, ("Where", "lambda e: e.met() > 1"): _where_cut,
               ("SelectMany", "lambda e: e.jets()"): _selmany_jets}
 _SHARED_AST = {}
 
 
 class Jet:
-    def pt(self) -> float: ...  # noqa
+    def pt(self, a: int = 1) -> int: ...  # noqa
 
 
 class Evt:
